@@ -578,7 +578,15 @@ def find_isometry(form, partial_map, force_oriented=False):
 
     kernel_basis = kernel(orth_partial @ form).swapaxes(-1, -2)
 
-    orth_kernel = indefinite_orthogonalize(form, kernel_basis)
+    # the kernel basis is orthonormal for the Euclidean form, but it
+    # may contain vectors which are isotropic for the given form (on
+    # which Gram-Schmidt breaks down). So instead of orthogonalizing
+    # it directly, diagonalize the restriction of the form to the
+    # kernel.
+    kernel_form = kernel_basis @ form @ kernel_basis.swapaxes(-1, -2)
+    kernel_diag = diagonalize_form(kernel_form, order_eigenvalues=None,
+                                   with_inverse=False)
+    orth_kernel = kernel_diag.swapaxes(-1, -2) @ kernel_basis
 
     iso = np.concatenate([orth_partial, orth_kernel], axis=-2)
 
